@@ -1,6 +1,6 @@
 (* C15  Failed registrations and failing sources leave the loop intact. *)
 From CV Require Import Base Consts Token PostAction Env Loop.
-From CVP Require Import Loop_frames Seq_lemmas Env_lemmas C09_proofs.
+From CVP Require Import Loop_frames Seq_lemmas Env_lemmas C09_proofs C15_intact.
 Import ListNotations.
 Open Scope N_scope.
 
@@ -26,6 +26,19 @@ Theorem C15_invalid_token_noop : forall s h, halted s = false -> lookup s h = No
   exec_action s (ARemove h) = emit s (op_line OP_REMOVE h ROk).
 Proof. exact invalid_token_noop. Qed.
 
+(* A REJECTED INSERTION LEAVES THE LOOP AS IT WAS. Whenever insert_source / register_dispatcher does not go through (the run did not
+   stop and the new object ended up in no slot), the lifecycle set, every handle's token, the pending action, the running marker and
+   the idle queue are unchanged, every other object is unchanged, and every occupied slot is exactly what it was - the only traces are
+   the user's own Dispatcher object and a consumed generation of a vacant slot (which C06 needs anyway). What the rejected
+   registration did to the poller is the Generic-level statement C15_register_fail_atomic (and finding F11 for composites). *)
+Theorem C15_rejected_insert_leaves_loop_intact : forall s h x, halted s = false -> objs s h = None ->
+  let s' := do_insert s h x in
+  halted s' = false -> in_slots (slots s') h = false ->
+  lifecycle s' = lifecycle s /\ toks s' = toks s /\ pending s' = pending s /\ running s' = running s /\ idles s' = idles s /\
+  (forall o, o <> h -> objs s' o = objs s o) /\
+  (forall j sl, nth_error (slots s) j = Some sl -> s_obj sl <> None -> nth_error (slots s') j = Some sl).
+Proof. exact rejected_insert_leaves_loop_intact. Qed.
+
 (* met by concrete states: a second registration of fd 10 fails and changes nothing; an unregister of an fd that is not in the
    table fails and changes nothing; and the insertion of a second lifecycle composite over the same fd fails (REGOP not ok, insert
    -> IoError) without leaving a lifecycle entry behind (the repaired defect F2): the loop goes on with the first source only *)
@@ -34,8 +47,8 @@ Example C15_nonvacuous :
   let e1 := snd (gen_register (en init) g (mkTok 0 0 1)) in
   let s := run (fun _ => []) (fun _ => []) [CAct (AInsert 1 (SComp true None [g] None)); CAct (AInsert 2 (SComp true None [g] None))] in
   gen_register e1 g (mkTok 1 0 1) = (false, g, e1) /\ gen_unregister (en init) g = (false, g, en init) /\
-  halted s = false /\ lifecycle s = [mkTok 0 0 0] /\ In (L T_OP [OP_INSERT; 2; res_code RIo]%Z) (trace_of s) /\ quiet s.
-Proof. cbv zeta. split; [reflexivity|split; [reflexivity|split; [reflexivity|split; [reflexivity|split; [vm_compute; do 5 right; left; reflexivity|split; reflexivity]]]]]. Qed.
+  halted s = false /\ lifecycle s = [mkTok 0 0 0] /\ In (L T_OP [OP_INSERT; 2; res_code RIo]%Z) (trace_of s) /\ quiet s /\ in_slots (slots s) 2 = false /\ in_slots (slots s) 1 = true.
+Proof. cbv zeta. split; [reflexivity|split; [reflexivity|split; [reflexivity|split; [reflexivity|split; [vm_compute; do 5 right; left; reflexivity|split; [split; reflexivity|split; reflexivity]]]]]]. Qed.
 
 (* KNOWN FINDING F4 (recorded): an Err from one source drops the rest of the batch. The model reproduces it: the timer
    (deadline 2) is due at phase 1, the composite fails first, the dispatch returns Err, and the timer never fires. *)
